@@ -1,10 +1,12 @@
 package simrt
 
 import (
+	"context"
 	"os"
 	"os/exec"
 	"strconv"
 	"testing"
+	"time"
 )
 
 // Unit tests of the simulator's own semantics (run by selftest/run.sh unit, in a
@@ -12,6 +14,7 @@ import (
 // instrumented library code would.
 
 func cfg(seed uint64, pol int) Config {
+	permChans = permChans[:0] // the tests make their channels between Begin and Run
 	return Config{Tape: NewTape(seed), Policy: pol, SwitchPct: 3000, PCTDepth: 3,
 		OnFatal: func(v int, d string) { panic("unexpected fatal verdict: " + d) }}
 }
@@ -19,7 +22,7 @@ func cfg(seed uint64, pol int) Config {
 func TestRendezvousChannelKeepsOrderUnderAllPolicies(t *testing.T) {
 	for seed := uint64(1); seed <= 200; seed++ {
 		Begin(cfg(seed, int(seed)%NPolicies))
-		ch := make(chan int)
+		ch := RegChan(make(chan int))
 		var got []int
 		Run([]func(){
 			func() {
@@ -52,7 +55,7 @@ func TestRendezvousChannelKeepsOrderUnderAllPolicies(t *testing.T) {
 func TestBufferedChannelBlocksWhenFull(t *testing.T) {
 	for seed := uint64(1); seed <= 100; seed++ {
 		Begin(cfg(seed, PolRandom))
-		ch := make(chan int, 2)
+		ch := RegChan(make(chan int, 2))
 		maxLen := 0
 		sum := 0
 		Run([]func(){
@@ -140,8 +143,20 @@ func TestHelperScenario(t *testing.T) {
 			func() { m.Lock(); m.Unlock() },
 		})
 	case "recv-nobody-sends":
-		ch := make(chan int)
+		ch := RegChan(make(chan int))
 		Run([]func(){func() { ChanRecv(ch) }})
+	case "ctx-nobody-cancels":
+		ctx, cancel := context.WithCancel(context.Background())
+		defer cancel()
+		Run([]func(){func() { ChanRecv(ctx.Done()) }, func() { Yield(YAtomic, 0) }})
+	case "ticker-only":
+		ch := RegChan(make(chan int))
+		Run([]func(){func() {
+			tk := TimeNewTicker(time.Second)
+			defer tk.Stop()
+			_ = tk
+			ChanRecv(ch) // the ticker keeps time moving, nobody ever sends
+		}})
 	}
 	os.Exit(0)
 }
@@ -229,7 +244,7 @@ func TestSameSeedSameExecutionAndReplay(t *testing.T) {
 			}
 			Begin(c)
 			p := &Pool{New: func() any { return new(int) }}
-			Run(work(make(chan int, 1), p))
+			Run(work(RegChan(make(chan int, 1)), p))
 			hashes[rep] = GetStats().EventHash
 			if rep == 0 {
 				tape = c.Tape.Snapshot()
@@ -401,9 +416,9 @@ func TestCondProducerConsumer(t *testing.T) {
 func TestSelectClausesDefaultAndParking(t *testing.T) {
 	for seed := uint64(1); seed <= 300; seed++ {
 		Begin(cfg(seed, int(seed)%NPolicies))
-		data := make(chan int)   // rendezvous
-		buf := make(chan int, 2) // buffered
-		done := make(chan struct{})
+		data := RegChan(make(chan int))   // rendezvous
+		buf := RegChan(make(chan int, 2)) // buffered
+		done := RegChan(make(chan struct{}))
 		var got, polled, viaBuf int
 		Run([]func(){
 			func() { // producer: offers each number on either channel
@@ -447,6 +462,292 @@ func TestSelectClausesDefaultAndParking(t *testing.T) {
 		}
 		if polled != 1 {
 			t.Fatalf("seed %d: default clause taken %d times", seed, polled)
+		}
+	}
+}
+
+func TestForeignChannelNobodyClosesIsADeadlockVerdict(t *testing.T) {
+	if v := scenarioVerdict(t, "ctx-nobody-cancels", 1); v != VDeadlock {
+		t.Fatalf("verdict %d", v)
+	}
+	if v := scenarioVerdict(t, "ticker-only", 1); v != VDeadlock {
+		t.Fatalf("ticker: verdict %d", v)
+	}
+}
+
+func TestTimerFiresWhenEverybodyWaits(t *testing.T) {
+	for seed := uint64(1); seed <= 100; seed++ {
+		Begin(cfg(seed, int(seed)%NPolicies))
+		var at [3]time.Time
+		start := TimeNow()
+		Run([]func(){
+			func() { at[0] = ChanRecv(TimeAfter(time.Minute)) },
+			func() { at[1] = ChanRecv(TimeAfter(time.Second)) },
+			func() {
+				tm := TimeNewTimer(time.Hour)
+				if !tm.Reset(30 * time.Second) {
+					t.Errorf("Reset of a pending timer reports false")
+				}
+				at[2] = ChanRecv(tm.C)
+				if tm.Stop() {
+					t.Errorf("Stop of a fired timer reports true")
+				}
+			},
+		})
+		st := GetStats()
+		if st.TimerFires != 3 || st.TimerJumps == 0 {
+			t.Fatalf("seed %d: fires %d jumps %d", seed, st.TimerFires, st.TimerJumps)
+		}
+		if !(at[1].Before(at[2]) && at[2].Before(at[0])) {
+			t.Fatalf("seed %d: order %v", seed, at)
+		}
+		if d := at[0].Sub(start); d < time.Minute || d > time.Minute+time.Second {
+			t.Fatalf("seed %d: the minute timer fired after %v", seed, d)
+		}
+	}
+}
+
+func TestSelectTimeoutLosesToAResultAndWinsWithoutOne(t *testing.T) {
+	for seed := uint64(1); seed <= 300; seed++ {
+		for _, answer := range []bool{true, false} {
+			Begin(cfg(seed, int(seed)%NPolicies))
+			res := RegChan(make(chan int, 1))
+			quit := RegChan(make(chan struct{}))
+			var got string
+			Run([]func(){
+				func() {
+					tm := TimeAfter(time.Hour)
+					switch SelectReady(false, RecvCase(res), RecvCase(tm)) {
+					case 0:
+						ChanRecvNow(res)
+						got = "result"
+					case 1:
+						ChanRecvNow(tm)
+						got = "timeout"
+					}
+					ChanClose(quit)
+				},
+				func() {
+					for i := 0; i < 20; i++ {
+						Yield(YAtomic, 0)
+					}
+					if answer {
+						ChanSend(res, 1)
+					}
+					ChanRecv(quit)
+				},
+			})
+			if want := map[bool]string{true: "result", false: "timeout"}[answer]; got != want {
+				t.Fatalf("seed %d: got %s, want %s", seed, got, want)
+			}
+		}
+	}
+}
+
+func TestAfterFuncRunsAsATaskAndStopPreventsIt(t *testing.T) {
+	for seed := uint64(1); seed <= 100; seed++ {
+		Begin(cfg(seed, int(seed)%NPolicies))
+		done := RegChan(make(chan struct{}))
+		ran, stopped := 0, 0
+		Run([]func(){func() {
+			TimeAfterFunc(time.Second, func() { ran++; ChanClose(done) })
+			s := TimeAfterFunc(time.Millisecond, func() { stopped++ })
+			if !s.Stop() {
+				t.Errorf("Stop of a pending timer reports false")
+			}
+			ChanRecv(done)
+		}})
+		if ran != 1 || stopped != 0 {
+			t.Fatalf("seed %d: ran %d stopped %d", seed, ran, stopped)
+		}
+	}
+}
+
+func TestSleepMakesTimersDue(t *testing.T) {
+	Begin(cfg(1, PolRandom))
+	fired := false
+	Run([]func(){func() {
+		tm := TimeAfter(time.Second)
+		TimeSleep(2 * time.Second)
+		if SelectReady(true, RecvCase(tm)) == 0 {
+			ChanRecvNow(tm)
+			fired = true
+		}
+	}})
+	if !fired || GetStats().TimerJumps != 0 {
+		t.Fatalf("fired %v jumps %d", fired, GetStats().TimerJumps)
+	}
+}
+
+func TestContextCancelReleasesAReceiverUnderAllPolicies(t *testing.T) {
+	for seed := uint64(1); seed <= 300; seed++ {
+		Begin(cfg(seed, int(seed)%NPolicies))
+		ctx, cancel := context.WithCancel(context.Background())
+		done := RegChan(make(chan struct{}))
+		work := RegChan(make(chan int))
+		sum := 0
+		Run([]func(){func() {
+			Go(func() { // a worker in the usual shape: work or cancellation
+				defer ChanClose(done)
+				for {
+					c0, c1 := ctx.Done(), work
+					switch SelectReady(false, RecvCase(c0), RecvCase(c1)) {
+					case 0:
+						ChanRecvNow(c0)
+						return
+					case 1:
+						sum += ChanRecvNow(c1)
+					}
+				}
+			})
+			for i := 1; i <= 4; i++ {
+				ChanSend(work, i)
+			}
+			cancel()
+			ChanRecv(done)
+		}})
+		if sum != 10 {
+			t.Fatalf("seed %d: sum %d", seed, sum)
+		}
+		if ctx.Err() != context.Canceled {
+			t.Fatalf("seed %d: %v", seed, ctx.Err())
+		}
+	}
+}
+
+func TestContextTimeoutIsASimulatedTimer(t *testing.T) {
+	for seed := uint64(1); seed <= 100; seed++ {
+		Begin(cfg(seed, int(seed)%NPolicies))
+		var err1, err2 error
+		var dl time.Time
+		var start time.Time
+		Run([]func(){
+			func() {
+				start = TimeNow()
+				ctx, cancel := CtxWithTimeout(context.Background(), time.Minute)
+				defer cancel()
+				dl, _ = ctx.Deadline()
+				ChanRecv(ctx.Done())
+				err1 = ctx.Err()
+			},
+			func() {
+				ctx, cancel := CtxWithTimeout(context.Background(), time.Hour)
+				cancel() // cancelled long before the deadline
+				ChanRecv(ctx.Done())
+				err2 = ctx.Err()
+			},
+		})
+		if err1 != context.DeadlineExceeded || err2 != context.Canceled {
+			t.Fatalf("seed %d: %v / %v", seed, err1, err2)
+		}
+		if d := dl.Sub(start); d < time.Minute || d > time.Minute+time.Second {
+			t.Fatalf("seed %d: deadline %v after the start", seed, d)
+		}
+		if GetStats().TimerFires != 1 {
+			t.Fatalf("seed %d: %d timers fired (the cancelled one must not)", seed, GetStats().TimerFires)
+		}
+	}
+}
+
+func TestTimersAndPollingReplay(t *testing.T) {
+	var ticks int
+	scenario := func() []func() {
+		return []func(){func() {
+			ctx, cancel := CtxWithTimeout(context.Background(), 3*time.Second+time.Millisecond)
+			tick := RegChan(make(chan int, 1))
+			fin := RegChan(make(chan struct{}))
+			ticks = 0
+			Go(func() {
+				defer ChanClose(fin)
+				defer cancel()
+				for {
+					if _, ok := ChanRecv2(tick); !ok {
+						return
+					}
+					ticks++
+					TimeNow()
+				}
+			})
+			tk := TimeNewTicker(time.Second)
+			defer tk.Stop()
+			for i := 0; ; i++ {
+				c0, c1 := ctx.Done(), tk.C
+				switch SelectReady(false, RecvCase(c0), RecvCase(c1)) {
+				case 0:
+					ChanRecvNow(c0)
+					ChanClose(tick)
+					ChanRecv(fin)
+					return
+				case 1:
+					ChanRecvNow(c1)
+					if SelectReady(true, SendCase(tick)) == 0 {
+						ChanSendNow(tick, i)
+					}
+				}
+			}
+		}}
+	}
+	for seed := uint64(1); seed <= 60; seed++ {
+		c := cfg(seed, int(seed)%NPolicies)
+		c.ClockVaryPct = 30
+		Begin(c)
+		Run(scenario())
+		h1, n1, tape := GetStats().EventHash, ticks, c.Tape.Snapshot()
+		if n1 > 6 { // a clock jump may make the ticker and the deadline due together; select then chooses
+			t.Fatalf("seed %d: %d ticks within three seconds", seed, n1)
+		}
+		c2 := cfg(seed, PolRandom)
+		c2.Tape = NewReplayTape(tape)
+		Begin(c2)
+		Run(scenario())
+		if h2 := GetStats().EventHash; h1 != h2 || ticks != n1 {
+			t.Fatalf("seed %d: replay diverged", seed)
+		}
+	}
+}
+
+// A worker that answers and exits must release the waiting selector at once: time
+// may only jump when truly nobody can run (met while building: the worker's last
+// step was not counted as progress, the pollers looked past it and a ticker fired).
+func TestNoTimeJumpWhileSomebodyCanRun(t *testing.T) {
+	for seed := uint64(1); seed <= 400; seed++ {
+		Begin(cfg(seed, int(seed)%NPolicies))
+		beats := 0
+		Run([]func(){func() {
+			ctx, cancel := CtxWithTimeout(context.Background(), time.Hour)
+			defer cancel()
+			Go(func() { // heartbeat
+				tk := TimeNewTicker(time.Second)
+				defer tk.Stop()
+				for {
+					c0, c1 := ctx.Done(), tk.C
+					switch SelectReady(false, RecvCase(c0), RecvCase(c1)) {
+					case 0:
+						ChanRecvNow(c0)
+						return
+					case 1:
+						ChanRecvNow(c1)
+						beats++
+					}
+				}
+			})
+			done := RegChan(make(chan int, 1))
+			Go(func() {
+				for i := 0; i < int(seed%7); i++ {
+					Yield(YAtomic, 0)
+				}
+				ChanSend(done, 1)
+			})
+			c0, c1 := done, ctx.Done()
+			switch SelectReady(false, RecvCase(c0), RecvCase(c1)) {
+			case 0:
+				ChanRecvNow(c0)
+			case 1:
+				t.Errorf("seed %d: timed out", seed)
+			}
+		}})
+		if st := GetStats(); st.TimerJumps != 0 || st.TimerFires != 0 || beats != 0 {
+			t.Fatalf("seed %d: jumps %d fires %d beats %d", seed, st.TimerJumps, st.TimerFires, beats)
 		}
 	}
 }
